@@ -114,7 +114,7 @@ def run_rest_session(start, n, dt, comp, opts):
             if r.status_code != 200:
                 return [("stream-steps-status", "%d %r" % (r.status_code, srv.body(r)))]
             try:
-                lst = srv.unpickle_json(srv.read_stream(r))
+                lst = srv.unpickle_json(srv.read_stream(r, 400))
             except srv.StreamOverflow as e:
                 return [("stream-steps-never-ends", "start=%r dt=%r n=%d calls=%r: %s" % (start, dt, n, comp, e))]
             if not isinstance(lst, list):
